@@ -25,7 +25,7 @@ ASSUMPTIONS = ["six 1.17 shim", "actor assumption: one event at a time per accou
                "those are W1's subject)", "Noise/segments layers are not in this world (C04/C11 cover them)",
                "sends are issued while the sender is logged in (after the non-passive success)",
                "restarts only at quiescent points, as the property states"]
-BUDGET = {"quick": (1500, 150), "thorough": (30000, 2400)}
+BUDGET = {"quick": (1500, 150), "thorough": (60000, 2700)}
 FAULTS = ["srv_dup_message", "srv_corrupt_enc", "clean_restart"]
 PROBES = ["first_contact_key_fetch", "group_first_message", "group_media_first_message", "retry_receipt_path", "duplicate_path",
           "burst_before_answer", "delivery_after_restart", "pkmsg", "msg", "skmsg", "prekey_refill"]
